@@ -416,6 +416,11 @@ def rule_state_inventory(repo: Repo) -> List[Ob]:
                         for tt in (t.elts if isinstance(t, (ast.Tuple, ast.List)) else [t]):
                             if isinstance(tt, ast.Subscript) and isinstance(tt.value, ast.Name) and tt.value.id in modvars and tt.value.id not in localnames:
                                 found[f"modstate::{m.relpath}::{tt.value.id}"] = (m.relpath, n.lineno, f.qualname, f"module-level `{tt.value.id}` mutated by item assignment")
+                            # item stores into a class-level container through cls / the class name:  cls._cache[key] = value
+                            if isinstance(tt, ast.Subscript) and isinstance(tt.value, ast.Attribute) and isinstance(tt.value.value, ast.Name) and f.cls is not None \
+                                    and (tt.value.value.id == "cls" or tt.value.value.id == f.cls.name) and tt.value.attr in f.cls.class_assigns:
+                                found[f"classmutable::{f.cls.name}.{tt.value.attr}"] = (m.relpath, n.lineno, f.qualname,
+                                                                                         f"class-level container {f.cls.name}.{tt.value.attr} is written through the class (`{src(n)[:50]}`): one table for the whole process")
                             # class attribute stores:  Cls.attr = ... / cls.attr = ...
                             if isinstance(tt, ast.Attribute) and isinstance(tt.value, ast.Name):
                                 base = tt.value.id
